@@ -99,6 +99,10 @@ def execOp (chk : Bool) (tok : List String) : String :=
   | ["felt_value", a] => toString (Zq.value (parseNat a))
   | ["felt_balanced", a] => renderRes toString (Zq.balanced chk (parseNat a))
   | ["felt_add", a, b] => toString (Zq.add (parseNat a) (parseNat b))
+  | ["felt_add_assign", a, b] => toString (Zq.add (parseNat a) (parseNat b))
+  | ["felt_sub_assign", a, b] => renderRes toString (Zq.sub chk (parseNat a) (parseNat b))
+  | ["felt_mul_assign", a, b] => renderRes toString (Zq.mul chk (parseNat a) (parseNat b))
+  | ["felt_from_usize", _] => "skip"
   | ["felt_sub", a, b] => renderRes toString (Zq.sub chk (parseNat a) (parseNat b))
   | ["felt_neg", a] => renderRes toString (Zq.neg chk (parseNat a))
   | ["felt_mul", a, b] => renderRes toString (Zq.mul chk (parseNat a) (parseNat b))
@@ -178,6 +182,10 @@ def execOp (chk : Bool) (tok : List String) : String :=
   | ["u32f_new", v] => renderRes toString (Zp.new chk (parseInt v))
   | ["u32f_balanced", a] => renderRes toString (Zp.balanced chk (parseNat a))
   | ["u32f_add", a, b] => toString (Zp.add (parseNat a) (parseNat b))
+  | ["u32f_add_assign", a, b] => toString (Zp.add (parseNat a) (parseNat b))
+  | ["u32f_sub_assign", a, b] => renderRes toString (Zp.sub chk (parseNat a) (parseNat b))
+  | ["u32f_mul_assign", a, b] => toString (Zp.mul (parseNat a) (parseNat b))
+  | ["u32f_div", a, b] => if parseNat b = 0 then "skip" else toString (Zp.mul (parseNat a) (Zp.inv (parseNat b)))
   | ["u32f_sub", a, b] => renderRes toString (Zp.sub chk (parseNat a) (parseNat b))
   | ["u32f_mul", a, b] => toString (Zp.mul (parseNat a) (parseNat b))
   | ["u32f_inv", a] => toString (Zp.inv (parseNat a))
